@@ -5,7 +5,10 @@ package main
 // summary TLC computed from the definitions, and TLC recomputes P/Q from the logged summary.
 // Written independently of the code under test (different loop structure, no shared helpers).
 
-import "math/bits"
+import (
+	"math"
+	"math/bits"
+)
 
 func b2i_(b bool) int {
 	if b {
@@ -303,7 +306,65 @@ func proxyStat(c Call, x []bool) map[string]interface{} {
 		}
 		st["K"] = K
 		st["dist"] = ds
+	case "dft":
+		lo, amb := proxyDftCount(x)
+		st["lo"] = lo
+		st["amb"] = amb
 	}
 	_ = bits.Len
 	return st
+}
+
+// independent recursive radix-2 FFT (decimation in time, out of place) for the DFT-test proxy
+func recFFT(a []complex128) []complex128 {
+	n := len(a)
+	if n == 1 {
+		return []complex128{a[0]}
+	}
+	ev := make([]complex128, n/2)
+	od := make([]complex128, n/2)
+	for i := 0; i < n/2; i++ {
+		ev[i] = a[2*i]
+		od[i] = a[2*i+1]
+	}
+	E := recFFT(ev)
+	O := recFFT(od)
+	out := make([]complex128, n)
+	for k := 0; k < n/2; k++ {
+		ang := -2 * math.Pi * float64(k) / float64(n)
+		w := complex(math.Cos(ang), math.Sin(ang))
+		out[k] = E[k] + w*O[k]
+		out[k+n/2] = E[k] - w*O[k]
+	}
+	return out
+}
+
+func proxyDftCount(x []bool) (int, int) {
+	n := len(x)
+	N := 2
+	for N < n {
+		N *= 2
+	}
+	a := make([]complex128, N)
+	for i, v := range x {
+		if v {
+			a[i] = 1
+		} else {
+			a[i] = -1
+		}
+	}
+	X := recFFT(a)
+	t2 := 2.995732274 * float64(n)
+	lo, amb := 0, 0
+	for k := 0; k < n/2-1; k++ {
+		m2 := real(X[k])*real(X[k]) + imag(X[k])*imag(X[k])
+		switch {
+		case m2 < t2*(1-1e-9):
+			lo++
+		case m2 > t2*(1+1e-9):
+		default:
+			amb++
+		}
+	}
+	return lo, amb
 }
